@@ -150,7 +150,10 @@ PROPS = {
                "container inside a loop that runs user callbacks (R-STALE-INDEX). Not decided: panic-freedom in general (unwrap/index sites justified by data "
                "invariants are out of scope and counted as undecided where met).",
         technique="guard live-range dataflow over MIR x whole-workspace call graph (CHA + callback-through-bounds "
-                  "edges); Assert-terminator census with dominating-guard classification",
+                  "edges); Assert-terminator census with dominating-guard classification; interval analysis of byte-width "
+                  "sites over expression trees of named size leaves (dominating guards, correlated-condition pruning, "
+                  "caller- and producer-established bounds); belief rules between sibling methods (cursor overshoot vs "
+                  "unguarded subtraction); unit taint (display column -> byte offset)",
     ),
     "C03": dict(
         rules=[R("placeholder", "rule_placeholder"), R("placeholder", "rule_match_order")],
